@@ -3,7 +3,7 @@ projection of raw driver traces to the abstract events of Trace_Transfer.tla, an
 import json, os, random, re, subprocess, concurrent.futures as cf
 import vlib
 
-LAYOUTS = ["single", "multi", "empties", "padmid", "padalign", "padend", "odd", "onepiece"]
+LAYOUTS = ["single", "multi", "empties", "padmid", "padalign", "padend", "odd", "onepiece", "padwhole"]
 IGNORING = ["dup", "unreq", "reverse", "chokeafter"]          # liar policies that must be tolerated without ban
 DROPPING = ["oob", "oobbegin", "trunc", "disconnect", "stall"]  # the peer is dropped / goes silent
 CORRUPT = ["corrupt", "wrongpiece"]
@@ -26,7 +26,7 @@ def gen_scenarios(rng, n, focus):
 
     fams = []
     if focus == "c01":
-        fams = ["sole_corrupt"] * 4 + ["liar_and_honest"] * 4 + ["ignoring"] * 3 + ["dropping"] * 3 + ["ws_corrupt"] * 2 + \
+        fams = ["sole_corrupt"] * 4 + ["sole_corruptclose"] * 3 + ["liar_and_honest"] * 4 + ["ignoring"] * 3 + ["dropping"] * 3 + ["ws_corrupt"] * 2 + \
                ["ws_and_liar"] * 2 + ["stopstart"] * 3 + ["partial_liars"] * 2 + ["honest"]
     else:
         fams = ["honest"] * 3 + ["ws_only"] * 3 + ["ws_and_peer"] * 2 + ["split_have"] * 2 + ["dropping"] * 2 + ["ignoring"] * 2 + \
@@ -46,6 +46,10 @@ def gen_scenarios(rng, n, focus):
             pol = rng.choice(CORRUPT)
             add(layout=lay, seq=seq, honest=True,
                 peers=[{"name": "liar", "ip": "127.0.0.2", "policy": pol, "k": rng.randint(1, 3), "have": "all", "sole": True,
+                        "noFast": rng.random() < 0.3}, honest])
+        elif fam == "sole_corruptclose":
+            add(layout=rng.choice(["single", "multi", "odd"]), seq=seq, honest=True, unit=rng.choice([65536, 262144]),
+                peers=[{"name": "liar", "ip": "127.0.0.2", "policy": "corruptclose", "have": "all", "sole": True,
                         "noFast": rng.random() < 0.3}, honest])
         elif fam == "liar_and_honest":
             pol = rng.choice(CORRUPT + IGNORING)
@@ -152,7 +156,9 @@ def project(raw_path, crashed_ids=()):
         def have_list(kind, n):
             return {"evens": [i for i in range(n) if i % 2 == 0], "odds": [i for i in range(n) if i % 2 == 1],
                     "firsthalf": list(range((n + 1) // 2)), "none": []}.get(kind or "all", list(range(n)))
-        a.append({"ev": "init", "np": ini["np"], "plen": ini["plen"], "honest": bool(ini["honest"]), "good": [], "sid": sid,
+        a.append({"ev": "init", "np": ini["np"], "plen": ini["plen"], "honest": bool(ini["honest"]),
+                  "good": [i for i, n in enumerate(ini.get("nonpad", [])) if n == 0],   # a piece without data is trivially correct in storage
+                  "sid": sid,
                   "layout": ini["layout"],
                   "peers": [{"ip": p["ip"], "have": have_list(p.get("have"), ini["np"])} for p in ini["peers"]]})
         for e in evs[1:]:
